@@ -221,10 +221,32 @@ def loader(chk, f, E, mol, ens):
         else:
             ctor = [c for s in body for c in walk_no_nested(s) if isinstance(c, ast.Call) and call_name(c) == "otype"]
             chk.require(ctor, f"{f.key}: cdxml arm builds nothing")
-            for i, c in enumerate(ctor):
-                tag = "by-key" if "key" in names_in(c) else "by-position"
-                chk.decide("name" in names_in(c), "C09.R3", f"{f.key}:cdxml:{tag}:name", f.where(c), "name reaches the constructed result",
-                           f"ml.{E}(fmt='cdxml', name=...): `{short(c, 50)}` ignores the name override")
+            from ..canon import specialize
+
+            takes_key = "key" in f.params()
+            for tag, kval in ((("by-position", None), ("by-key", "<a key>")) if takes_key else (("by-position", None),)):
+                view = specialize(body, "key", kval, {}) if takes_key else body
+                ctor_v = [c for s in view for c in walk_no_nested(s) if isinstance(c, ast.Call) and call_name(c) == "otype"]
+                if not ctor_v:
+                    continue
+                # which locals carry the override: assigned (on every assignment, `None` aside) from an expression that mentions `name`
+                carries = {"name"}
+                grow = True
+                while grow:
+                    grow = False
+                    defs = {}
+                    for s_ in view:
+                        for x in walk_no_nested(s_):
+                            if isinstance(x, ast.Assign) and len(x.targets) == 1 and isinstance(x.targets[0], ast.Name):
+                                defs.setdefault(x.targets[0].id, []).append(x.value)
+                    for nm_, vs_ in defs.items():
+                        real = [v for v in vs_ if not (isinstance(v, ast.Constant) and v.value is None)]
+                        if nm_ not in carries and real and all(names_in(v) & carries for v in real):
+                            carries.add(nm_)
+                            grow = True
+                for c in ctor_v:
+                    chk.decide(bool(names_in(c) & carries), "C09.R3", f"{f.key}:cdxml:{tag}:name", f.where(c), "name reaches the constructed result",
+                               f"ml.{E}(fmt='cdxml', name=...{', key=...' if tag == 'by-key' else ''}): `{short(c, 50)}` ignores the name override")
     # R4
     pu = possibly_unbound(f.node)
     if pu:
